@@ -5,3 +5,41 @@ helper does not change what the rules see.  Regenerate with tools/gen_anchors.py
 re-validated against a new baseline."""
 
 KNOWN_FUNCTIONS = frozenset(['AddCategory', 'AddUnit', 'AddUnitBase', 'AddUnitSystem', 'AlmostEqual', 'ChangeScalars', 'ChangingIndex', 'CheckCategoryUnit', 'CheckDefaultUnitDatabase', 'CheckFormatString', 'CheckQuantityType', 'CheckQuantityTypeUnit', 'CheckType', 'CheckValidity', 'CheckValue', 'CheckValueForCategory', 'CheckValues', 'Clear', 'Convert', 'ConvertFractionScalar', 'ConvertFractionValue', 'ConvertNumpyArray', 'ConvertScalarToCurrent', 'ConvertScalarValue', 'ConvertToCurrent', 'Copy', 'CreateAreaQuantityFromLengthQuantity', 'CreateCopy', 'CreateCopyInstance', 'CreateDefaultSingleton', 'CreateDerived', 'CreateEmpty', 'CreateEmptyArray', 'CreateEmptyScalar', 'CreateFromFloat', 'CreateFromString', 'CreateScalarCheckErrorMsg', 'CreateScalarCheckWarningMsg', 'CreateUnknwonwReadOnlyQuantity', 'CreateVolumeQuantityFromLengthQuantity', 'CreateWithQuantity', 'Divide', 'FillSimple', 'FillUnitDatabaseWithPosc', 'FindNumerator', 'FindSimilarUnitMatches', 'FindUnitCase', 'FixUnitIfIsLegacy', 'FloatFromString', 'FloorDivide', 'FormatFloat', 'FromScalars', 'GetAbstractValue', 'GetBaseUnit', 'GetCaption', 'GetCategory', 'GetCategoryDefaultUnit', 'GetCategoryInfo', 'GetCategoryQuantityType', 'GetCategoryToUnitAndExps', 'GetCategoryToUnitAndExpsCopy', 'GetComposingCategories', 'GetComposingUnits', 'GetComposingUnitsJoiningExponents', 'GetCurrent', 'GetDefaultCategory', 'GetDefaultUnit', 'GetDefaultValue', 'GetDimension', 'GetDomain', 'GetFormatted', 'GetFormattedSuffix', 'GetFormattedSuffixFormat', 'GetFormattedValue', 'GetFormattedValueFormat', 'GetFraction', 'GetFractionalPart', 'GetId', 'GetImage', 'GetInfo', 'GetInfos', 'GetLength', 'GetLocalizedFraction', 'GetLocalizedString', 'GetMaxNumerator', 'GetNaN', 'GetNewId', 'GetNumber', 'GetQuantity', 'GetQuantityDefaultUnit', 'GetQuantityType', 'GetQuantityTypes', 'GetUnit', 'GetUnitCaption', 'GetUnitDatabase', 'GetUnitHtmlRepresentation', 'GetUnitName', 'GetUnitNames', 'GetUnitSystemById', 'GetUnitSystemTemplate', 'GetUnitSystems', 'GetUnits', 'GetUnitsMapping', 'GetUnknownCaption', 'GetUnknownQuantity', 'GetValidUnits', 'GetValue', 'GetValueAndUnit', 'GetValues', 'HasCategory', 'IndexAsScalar', 'IsDerived', 'IsListOfTuples', 'IsNumber', 'IsNumpy', 'IsReadOnly', 'IsTuple', 'IsValid', 'IsValidCategory', 'IterCategories', 'MakeBaseToCustomary', 'MakeCopy', 'MakeCustomaryToBase', 'MakeLambda', 'MakeTuple', 'MatchFractionPart', 'Multiply', 'ObtainQuantity', 'Register', 'RegisterAdditionalConversionType', 'RegisterFractionScalarConversion', 'RegisterNumpyConversion', 'RemoveCategory', 'RemoveUnitSystem', 'ResetInstance', 'SetCaption', 'SetCurrent', 'SetDefaultUnit', 'SetDefaultUnitSystemClass', 'SetDomain', 'SetFormattedSuffixFormat', 'SetFormattedValueFormat', 'SetFraction', 'SetImage', 'SetNumber', 'SetReadOnly', 'SetTemplateUnitSystemByUnitsMapping', 'SetUnknownCaption', 'SetValues', 'Subtract', 'Sum', 'TryToGetUnitInfoFromUnit', 'UpdateObjects', 'ValidateValues', '_CategoryUnitChange', '_CheckImageAndDomainLength', '_CheckUnitSystemMapping', '_ConvertWithExp', '_CreateDerived', '_CreateUnitsWithJoinedExponentsString', '_DoOperation', '_DoOperationResultingInNewQuantity', '_DoOperationWithSameQuantity', '_DoValidateValues', '_GetComparison', '_GetDefaultValue', '_GetKnownNumberTypes', '_InternalCreateWithQuantity', '_MakeStr', '_MatchQuantities', '_ObtainReduced', '_OnRefKilled', '_RaiseValueError', '_ScalarCheckMsgPredicate', '__FormatFractionToString', '__FormatToString', '__abs__', '__add__', '__copy__', '__deepcopy__', '__eq__', '__float__', '__floordiv__', '__ge__', '__getitem__', '__gt__', '__hash__', '__init__', '__iter__', '__le__', '__len__', '__lt__', '__mod__', '__mul__', '__ne__', '__neg__', '__new__', '__old_cmp__', '__pow__', '__radd__', '__rdiv__', '__reduce__', '__repr__', '__rfloordiv__', '__rmod__', '__rmul__', '__rsub__', '__rtruediv__', '__setitem__', '__str__', '__sub__', '__truediv__', 'classify', 'copy', 'get_denominator', 'get_numerator', 'identity', 'inv', 'reduce', 'ret', 'set_denominator', 'set_numerator'])
+
+# private functions of the baseline: 'path:class:name' -> parameter names (used to recognise a pure rename)
+PRIVATE_SIGNATURES = {'src/barril/_util/types_.py::_GetKnownNumberTypes': [],
+ 'src/barril/curve/curve.py:Curve:_CheckImageAndDomainLength': ['self', 'image', 'domain'],
+ 'src/barril/units/_abstractvaluewithquantity.py:AbstractValueWithQuantityObject:_GetDefaultValue': ['self', 'category_info', 'unit'],
+ 'src/barril/units/_abstractvaluewithquantity.py:AbstractValueWithQuantityObject:_InternalCreateWithQuantity': ['self', 'quantity', 'value', 'unit_database'],
+ 'src/barril/units/_array.py:Array:_DoOperation': ['self', 'p1', 'p2', 'operation'],
+ 'src/barril/units/_array.py:Array:_DoValidateValues': ['self', 'values', 'quantity'],
+ 'src/barril/units/_array.py:Array:_GetDefaultValue': ['self', 'category_info', 'unit'],
+ 'src/barril/units/_array.py:Array:_InternalCreateWithQuantity': ['self', 'quantity', 'values', 'unit_database', 'value'],
+ 'src/barril/units/_fixedarray.py:FixedArray:_GetDefaultValue': ['self', 'category_info', 'unit'],
+ 'src/barril/units/_fixedarray.py:FixedArray:_InternalCreateWithQuantity': ['self', 'quantity', 'values', 'unit_database', 'dimension', 'value'],
+ 'src/barril/units/_fraction_scalar.py:FractionScalar:_GetDefaultValue': ['self', 'category_info', 'unit'],
+ 'src/barril/units/_fraction_scalar.py:FractionScalar:_InternalCreateWithQuantity': ['self', 'quantity', 'value', 'unit_database'],
+ 'src/barril/units/_quantity.py::_ObtainReduced': ['state'],
+ 'src/barril/units/_quantity.py:Quantity:_CreateDerived': ['cls', 'category_to_unit_and_exps', 'validate_category_and_units', 'unknown_unit_caption'],
+ 'src/barril/units/_quantity.py:Quantity:_CreateUnitsWithJoinedExponentsString': ['self'],
+ 'src/barril/units/_quantity.py:Quantity:_DoOperation': ['self', 'q1', 'q2', 'operation'],
+ 'src/barril/units/_quantity.py:Quantity:_GetComparison': ['cls', 'operator', 'use_literals'],
+ 'src/barril/units/_quantity.py:Quantity:_MakeStr': ['self', 'repr_and_exp'],
+ 'src/barril/units/_quantity.py:Quantity:_RaiseValueError': ['self', 'value', 'operator', 'limit_value', 'use_literals'],
+ 'src/barril/units/_scalar.py:Scalar:_DoOperation': ['self', 'p1', 'p2', 'operation', 'callback_operation'],
+ 'src/barril/units/_scalar.py:Scalar:_GetDefaultValue': ['self', 'category_info', 'unit'],
+ 'src/barril/units/_scalar.py:Scalar:_InternalCreateWithQuantity': ['self', 'quantity', 'value', 'unit_database'],
+ 'src/barril/units/scalar_validation/scalar_min_max_validator.py:ScalarMinMaxValidator:_ScalarCheckMsgPredicate': ['cls', 'scalar'],
+ 'src/barril/units/unit_database.py:UnitDatabase:_ConvertWithExp': ['self', 'quantity_type', 'from_unit_exps', 'to_unit_exps', 'value'],
+ 'src/barril/units/unit_database.py:UnitDatabase:_DoOperationResultingInNewQuantity': ['self',
+                                                                                       'quantity1',
+                                                                                       'quantity2',
+                                                                                       'value1',
+                                                                                       'value2',
+                                                                                       'operation_exp',
+                                                                                       'operation'],
+ 'src/barril/units/unit_database.py:UnitDatabase:_DoOperationWithSameQuantity': ['self', 'quantity1', 'quantity2', 'value1', 'value2', 'operation'],
+ 'src/barril/units/unit_database.py:UnitDatabase:_MatchQuantities': ['self', 'category_to_unit_and_exp1', 'category_to_unit_and_exp2', 'value1', 'value2'],
+ 'src/barril/units/unit_system_manager.py:UnitSystemManager:_CategoryUnitChange': ['self', 'category', 'unit'],
+ 'src/barril/units/unit_system_manager.py:UnitSystemManager:_CheckUnitSystemMapping': ['self', 'units_mapping', 'required_categories'],
+ 'src/barril/units/unit_system_manager.py:_IdentityWrap:_OnRefKilled': ['self', 'ref']}
